@@ -130,8 +130,11 @@ def replay_one(hist, alts):
         if a["op"] == "set" and (a["alt"] == "rej") != (w.res["t"] == "exc"):
             return "unrealised", None        # the implementation took the other allowed outcome earlier
     a0 = alts[0][0]
-    w.apply(a0)
-    impl = w.project()
+    try:
+        w.apply(a0)
+        impl = w.project()
+    except Exception as e:       # the implementation reached a state that has no counterpart in the specification
+        return "mismatch", f"implementation state cannot be projected: {type(e).__name__}: {e}"
     base = expected_state(hist)
     details = []
     for a, d in alts:
@@ -243,7 +246,8 @@ def replay(rep, rec):
     _INIT = init_state()
     # rebuild the expected from-state by asking TLC for the same history is not needed: the case stores the deltas of the
     # final action only; the from-state is recomputed from a fresh emission restricted to the actions in the history
-    acts = sorted({a["op"] if a["op"] != "dssetbad" else "dsset" for a in case["hist"]} | {case["alts"][0][0]["op"].replace("dssetbad", "dsset")})
+    norm = {"dssetbad": "dsset", "dsupdatebad": "dsupdate"}
+    acts = sorted({norm.get(a["op"], a["op"]) for a in case["hist"]} | {norm.get(case["alts"][0][0]["op"], case["alts"][0][0]["op"])})
     r = common.Report(rep.pid, rep.tier, rep.seed)
     recs = tlc_emit(r, "replay", acts, len(case["hist"]) + 1)
     _INDEX.clear()
